@@ -59,6 +59,7 @@ class TtaFromJson:
     ghost_params = ["schema", "record_id", "gc_content", "saved_threshold", "current_threshold", "codons"]
     derived = {"json": _tta_json}
     stubs = {"get_config": External(returns=Rec("Config", label="ConfigTta", tta_threshold=Real), pure=True,
+                                    over_contract_params=True,
                                     ensures=lambda result, current_threshold: result.tta_threshold == current_threshold)}
 
     def requires(codons):
